@@ -329,17 +329,17 @@ Definition test_fun (kind : nat) (a b c : R) (x : R) : option R :=
 Definition run_test (kind : nat) (a b c : R) (cf : cfg) (guess : R) : status :=
   newton (test_fun kind a b c) cf guess.
 
-(* toy generation field  G[i,j] = E[i,j] * amp * u^2 * s(u) * (1 + q cos(dir - d0))  with the shape functions
-   below; used to drive the real _u10_from_bulk_rate_point with analytic source terms *)
-Definition toy_shape (kind : nat) (a b : R) (u : R) : R :=
+(* toy generation field  G[i,j] = E[i,j] * amp * h(u) * (1 + q cos(dir - d0))  with the wind-speed
+   dependences below; used to drive the real _u10_from_bulk_rate_point with analytic source terms *)
+Definition toy_h (kind : nat) (a b : R) (u : R) : R :=
   match kind with
-  | 0%nat => a
-  | 1%nat => a + b * sin u
-  | 2%nat => Rmin (Rmax (a / (u * u)) (b / 10)) b
-  | 3%nat => a / (1 + b * u)
-  | _ => a
+  | 0%nat => u * u * a
+  | 1%nat => u * u * (a + b * sin u)
+  | 2%nat => Rmin (Rmax (u * u * a) b) (16 * b)
+  | 3%nat => u * u * a / (1 + b * u)
+  | _ => u * u * a
   end.
 
 Definition toy_gen (kind : nat) (amp a b q d0 : R) (E : list (list R)) (dir u : R) : option (list (list R)) :=
-  let h := amp * u * u * toy_shape kind a b u * (1 + q * cos ((dir - d0) * PI / 180)) in
+  let h := amp * toy_h kind a b u * (1 + q * cos ((dir - d0) * PI / 180)) in
   Some (map (fun row => map (fun e => e * h) row) E).
